@@ -36,8 +36,45 @@ targets = {
     kerneldll.compile_model.__code__: "compile_model",
     kerneldll.DllModel._load_dll.__code__: "_load_dll",
 }
-GATES = [("make_dll", "os.path.exists(dll)", "lookup"), ("_load_dll", "ct.CDLL(", "load")]
+GATES = [("make_dll", "os.path.exists(dll)", "lookup")]
 matched = set()
+load_frames = {}
+
+
+def _scan_gate(real):
+    """A listing of the cache directory is a step of its own: the participant waits between taking the listing and
+    using it (the unchanged code never lists the cache, so this gate never appears there)."""
+    def wrapper(path=".", *a, **kw):
+        out = real(path, *a, **kw)
+        try:
+            inside = os.path.abspath(os.fspath(path)) == os.path.abspath(kerneldll.SAS_DLL_PATH)
+        except Exception:
+            inside = False
+        if inside and mode in ("gated", "free"):
+            if real is _real_scandir:
+                out = list(out)
+            matched.add("scan")
+            ccmod.gate(ctrl, tag, "scan", str(path))
+            if real is _real_scandir:
+                return _Listed(out)
+        return out
+    return wrapper
+
+
+class _Listed(list):
+    def __enter__(self):
+        return self
+
+    def __exit__(self, *a):
+        return False
+
+    def close(self):
+        pass
+
+
+_real_listdir, _real_scandir = os.listdir, os.scandir
+os.listdir = _scan_gate(_real_listdir)
+os.scandir = _scan_gate(_real_scandir)
 
 
 def on_line(code, lineno):
@@ -66,6 +103,15 @@ def on_line(code, lineno):
             t0 = time.monotonic()
             while not os.path.exists(os.path.join(ctrl, "release")) and time.monotonic() - t0 < 120:
                 time.sleep(0.0002)
+        return None
+    if fn == "_load_dll":
+        # the load step starts where _load_dll starts: one gate per invocation, at its first statement
+        fr = sys._getframe(1)
+        if id(fr) not in load_frames:
+            load_frames[id(fr)] = fr
+            matched.add("load")
+            if mode in ("gated", "free"):
+                ccmod.gate(ctrl, tag, "load", str(getattr(fr.f_locals.get("self"), "dllpath", "")))
         return None
     for gfn, needle, gname in GATES:
         if fn == gfn and needle in text:
